@@ -180,6 +180,28 @@ func init() {
 		n := app("fields_len", args[0].T)
 		return Val{T: app("mk_slice", r, "0", n, n)}
 	}
+	// AWS SDK pointer helpers (both SDK generations)
+	for _, name := range []string{"github.com/aws/aws-sdk-go-v2/aws.String", "github.com/aws/aws-sdk-go/aws.String"} {
+		externs[name] = func(f *Frame, b *ssa.BasicBlock, in *ssa.Call, args []Val, st *State, g string) Val {
+			e := f.e
+			e.note("assumed contract: aws.String(v) returns a pointer to a fresh copy of v")
+			h := e.ptrHeap(types.Typ[types.String])
+			r := f.allocRef(st, "awsString")
+			st.heap[h] = app("store", st.H(h), r, args[0].T)
+			return Val{T: r}
+		}
+		externWrites[name] = noWrites
+		externReads[name] = func(fn *ssa.Function) []hkey { return nil }
+	}
+	for _, name := range []string{"github.com/aws/aws-sdk-go-v2/aws.ToString", "github.com/aws/aws-sdk-go/aws.StringValue"} {
+		externs[name] = func(f *Frame, b *ssa.BasicBlock, in *ssa.Call, args []Val, st *State, g string) Val {
+			e := f.e
+			e.note("assumed contract: aws.ToString / aws.StringValue(p) is *p, or \"\" for a nil pointer")
+			h := e.ptrHeap(types.Typ[types.String])
+			return Val{T: ite(eq(args[0].T, "0"), "str_empty", sel(st.H(h), args[0].T))}
+		}
+		externWrites[name] = noWrites
+	}
 	externWrites["strings.Fields"] = noWrites
 	externReads["strings.Fields"] = func(fn *ssa.Function) []hkey { return nil }
 	externWrites["strings.Join"] = noWrites
